@@ -165,19 +165,25 @@ class BlockDiagLinearOperator(BlockLinearOperator, metaclass=_MetaBlockDiagLinea
         Optional[Float[Tensor, "..."]],
     ]:
         if inv_quad_rhs is not None:
+            if inv_quad_rhs.dim() == 1:
+                inv_quad_rhs = inv_quad_rhs.unsqueeze(-1)
             inv_quad_rhs = self._add_batch_dim(inv_quad_rhs)
         inv_quad_res, logdet_res = self.base_linear_op.inv_quad_logdet(
             inv_quad_rhs, logdet, reduce_inv_quad=reduce_inv_quad
         )
-        if inv_quad_res is not None and inv_quad_res.numel():
+        if inv_quad_rhs is None:
+            # the base may return a zero placeholder for the term that was not asked for
+            if inv_quad_res is not None and inv_quad_res.numel():
+                inv_quad_res = torch.zeros(self.batch_shape, dtype=inv_quad_res.dtype, device=inv_quad_res.device)
+        elif inv_quad_res is not None and inv_quad_res.numel():
             if reduce_inv_quad:
                 inv_quad_res = inv_quad_res.view(*self.base_linear_op.batch_shape)
                 inv_quad_res = inv_quad_res.sum(-1)
             else:
                 inv_quad_res = inv_quad_res.view(*self.base_linear_op.batch_shape, inv_quad_res.size(-1))
                 inv_quad_res = inv_quad_res.sum(-2)
-        if logdet_res is not None and logdet_res.numel():
-            logdet_res = logdet_res.view(*logdet_res.shape).sum(-1)
+        if logdet_res is not None and logdet_res.numel() and logdet_res.dim():
+            logdet_res = logdet_res.sum(-1)
         return inv_quad_res, logdet_res
 
     def matmul(
